@@ -783,6 +783,14 @@ func parseMsgIDList(s string) ([]string, error) {
 }
 
 func readBody(dec *imapwire.Decoder, options *Options) (imap.BodyStructure, error) {
+	// Body structures nest (multipart children, message/rfc822 bodies): count
+	// each level against the decoder's nesting limit
+	ok := dec.EnterNested()
+	defer dec.LeaveNested()
+	if !ok {
+		return nil, dec.Err()
+	}
+
 	if !dec.ExpectSpecial('(') {
 		return nil, dec.Err()
 	}
